@@ -217,6 +217,19 @@ CHECKS = {
         note=BASE_NOTE + 'PARTIAL: the extraction is syntactic (no alias analysis / call graph; pyparsing not scanned) and the allow '
              'list is trusted; OS-level nondeterminism and third-party hash-order effects cannot be exhibited by the model.',
         technique='Lean 4 theorem over a regenerated effect summary (translator) + abstract non-interference theorem + multi-process differential search'),
+    'C06': dict(
+        category='proof',
+        text='PARTIAL. Proved: every expression tree the static check accepts has code, and expression compilation fails only where '
+             'the static check does (over tables regenerated from the real passes and generator); the assembler is total on every '
+             'stream whose label operands are defined and fails only on an undefined label (any stream). Not modelled: the pyparsing '
+             'grammar, the statement passes and statement generators - there totality is searched: 238 statement templates with '
+             'well-typed / wrongly-typed / missing / malformed operands in three positions, and token-level mutations of generated '
+             'and repository programs, at 3 levels x 2 debug settings, through compile, bytes() and str(); any exception other than '
+             'SyntaxError / CompileError, or a diagnostic without a position inside the text, is a finding.',
+        design_ref='DESIGN.md section 9 C06',
+        note=BASE_NOTE + 'The proved share covers expressions and the assembler only; the rest of the claim is exploration and says so. '
+             'RecursionError is retried with a larger interpreter limit (the property bounds nesting).',
+        technique='Lean 4 theorems over the expression-compiler and assembler models + correspondence + fuzzing search of the unmodelled stages'),
 }
 
 PENDING = ('not yet decided by the Lean framework in this commit; design in DESIGN.md section 9, implementation order in '
